@@ -310,6 +310,9 @@ func judge(sc *Scenario, rr *RunResult, env *core.Env) (string, string) {
 }
 
 func deathClassOf(sc *Scenario, rr *RunResult) string {
+	if rr.PanicClass != "" {
+		return rr.PanicClass
+	}
 	if rr.Faults["rconf-delete"] > 0 {
 		return "after-rconf-delete"
 	}
@@ -381,6 +384,9 @@ func judgeC07(sc *Scenario, rr *RunResult) (string, string) {
 	}
 	if m := finalDumpsDiffer(rr); m != "" {
 		return p + "/replicas-diverge-final/" + runClass(rr), m
+	}
+	if m := membershipViolated(sc, rr); m != "" {
+		return p + "/membership-changed/refused-rconf", m
 	}
 	if rr.StepLimit {
 		rr.Probes["step-limit-reached"]++
